@@ -131,6 +131,7 @@ class Graph:
         self.labels = {}
         self.adj = {}
         self.init = None
+        self.inits = []
         self.nedges = 0
 
 
@@ -149,8 +150,10 @@ def parse_dot(path):
                 n = int(m.group(1))
                 g.labels[n] = m.group(2)
                 g.adj.setdefault(n, [])
-                if "style = filled" in m.group(3) and g.init is None:
-                    g.init = n
+                if "style = filled" in m.group(3):
+                    g.inits.append(n)
+                    if g.init is None:
+                        g.init = n
     return g
 
 
